@@ -95,6 +95,21 @@ type ChoicePoint struct {
 	Free    bool   // data: alternatives cost nothing
 	FP      uint64 // fingerprint of the menu, for divergence detection
 	Desc    string // only when tracing
+	obj     uintptr
+	op      Op
+	step    int // index in Exec.acc of option 0's operation, were it taken
+	menu    []int32 // thread idx of each option (scheduling decisions)
+	// Racers: threads that later access option 0's object in conflict with its
+	// operation here, this being the last conflicting access before theirs.
+	Racers []int32
+	All    bool // timer operations: always branch to every option
+	// Local: option 0's pending operation is a lock/atomic operation that is not a
+	// race source in this execution, i.e. no other thread later accesses the same
+	// object in a conflicting way with this being the last such access before it.
+	// Scheduling another thread first then leads to an execution in which the two
+	// commute; the reorderings that matter are explored at the race sources
+	// (DPOR-style backtracking, computed on the finished execution).
+	Local bool
 }
 
 // Cost of taking alternative alt (>0) at this point.
@@ -152,6 +167,7 @@ type Exec struct {
 	deadlines map[any]time.Time
 	dlMu      sync.Mutex
 
+	acc      []access // every scheduled operation of the explored window, in order
 	ending   atomic.Bool
 	closed   sync.Map // chan pointer -> true
 	Aux      sync.Map // shim-owned per-execution data (timer channels)
@@ -297,6 +313,66 @@ func Point(obj uintptr, op Op, en func() bool) {
 	t.pend = pending{obj: obj, op: op, en: en}
 	t.state.Store(tsParked)
 	t.park()
+}
+
+type access struct {
+	th  int32
+	op  Op
+	obj uintptr
+}
+
+func conflict(a, b access) bool {
+	if a.obj != b.obj || a.th == b.th {
+		return false
+	}
+	if a.op == OpLoad && b.op == OpLoad {
+		return false
+	}
+	if a.op == OpRLock && b.op == OpRLock {
+		return false
+	}
+	return true
+}
+
+// markLocal classifies the recorded choice points once the execution is over:
+// for every operation it finds the threads whose later operation on the same
+// object conflicts with it, it being the last such one before theirs (the race
+// sources of dynamic partial-order reduction). Thread start/wake/yield/sleep
+// points touch no shared object and are never sources.
+func (x *Exec) markLocal() {
+	acc := x.acc
+	for _, t := range x.threads {
+		if t.state.Load() == tsParked && t.pend.obj != 0 {
+			acc = append(acc, access{int32(t.idx), t.pend.op, t.pend.obj})
+		}
+	}
+	racers := make(map[int][]int32)
+	byObj := map[uintptr][]int{}
+	for j, c := range acc {
+		if c.obj == 0 {
+			continue
+		}
+		l := byObj[c.obj]
+		for k := len(l) - 1; k >= 0; k-- {
+			if conflict(acc[l[k]], c) {
+				racers[l[k]] = append(racers[l[k]], c.th)
+				break
+			}
+		}
+		byObj[c.obj] = append(l, j)
+	}
+	for i := range x.Trace {
+		cp := &x.Trace[i]
+		if !cp.Sched {
+			continue
+		}
+		if cp.op == OpTimer {
+			cp.All = true
+			continue
+		}
+		cp.Racers = racers[cp.step]
+		cp.Local = len(cp.Racers) == 0
+	}
 }
 
 // Yield is a labelled scheduling point of a harness thread (a script step).
@@ -502,7 +578,11 @@ func (x *Exec) chooseThread(m []*Thread) *Thread {
 		h = fnv(h, t.pend.op.String())
 		h = fnv(h, "|")
 	}
-	cp := ChoicePoint{N: len(m), Sched: true, Preempt: m[0] == x.last, FP: h}
+	cp := ChoicePoint{N: len(m), Sched: true, Preempt: m[0] == x.last, FP: h, obj: m[0].pend.obj, op: m[0].pend.op, step: len(x.acc)}
+	cp.menu = make([]int32, len(m))
+	for i, t := range m {
+		cp.menu[i] = int32(t.idx)
+	}
 	if x.Tracing {
 		var sb strings.Builder
 		for i, t := range m {
@@ -549,6 +629,9 @@ func (x *Exec) Run(limit time.Duration) {
 		}
 		t := x.chooseThread(m)
 		x.last = t
+		if !x.Frozen {
+			x.acc = append(x.acc, access{int32(t.idx), t.pend.op, t.pend.obj})
+		}
 		x.Steps++
 		t.Steps++
 		if x.Tracing {
@@ -679,6 +762,7 @@ func RunOnce(t *testing.T, prefix []int, prefixFP []uint64, opt Options, body fu
 		})
 	}()
 	cur.Store(nil)
+	x.markLocal()
 	return Result{Trace: x.Trace, Steps: x.Steps, Failures: x.Failures, Diverged: x.Diverged, CapHit: x.CapHit, StepTrace: x.StepTrace,
 		Leftover: x.Leftover, Threads: len(x.threads), Ticks: x.ticks.Load()}
 }
